@@ -179,6 +179,18 @@ CHECKS = {
              "identity are not decided.",
         design_ref="DESIGN.md §5 C17", note=STATIC_NOTE,
         technique="static analysis: mutation scan with reviewed-site table and linked obligations, guard facts through call sites, class-attribute tables against parsed fontTools classes"),
+    "C19": dict(
+        text="Static structural clauses of the instantiator: Variator.instance_at returns a deep copy of the master stored under the "
+             "requested location's key, else model.interpolateFromMasters(location, masters), with masters / locations / key table "
+             "filled pairwise; every store of default-source data into the instance is a fresh copy (deepcopy / comprehension / list), "
+             "reviewed scalar exceptions; swap_glyph_names exchanges outlines, widths and anchors through a temporary with destinations "
+             "cleared, remaps components, both kerning sides and group members in both directions, never assigns code points, and is "
+             "only applied to the freshly created instance font; the instance has one new glyph per name of the default source; "
+             "master collection skips only non-default sparse layers, kerning groups from the default, default layer must hold every "
+             "glyph; otRound installed as fontMath's rounding, .round() only under round_geometry with in-place / returning forms read "
+             "from fontMath's source; one normalised location used for kerning, info and glyphs. Interpolation arithmetic is not decided.",
+        design_ref="DESIGN.md §5 C19", note=STATIC_NOTE,
+        technique="static analysis: return-path rules with guard facts, freshness of stored values, event-sequence matching for the swap, two-way remap shape rule, parsed third-party (fontMath) method shapes"),
 }
 
 _TODO = "check not built yet in this session (static rules designed in DESIGN.md §5; will be claimed when the rule set is armed)"
